@@ -396,9 +396,14 @@ class FTPProcessorSession(BaseProcessorSession):
         '''Make a symlink on the system.'''
         path = self._file_writer_session.extra_resource_path('dummy')
 
-        if path:
+        if path and link_name:
             dir_path = os.path.dirname(path)
-            symlink_path = os.path.join(dir_path, link_name)
+            # The link name comes from the server's listing: sanitise it like
+            # any other path component so it cannot leave the directory.
+            path_namer = self._item_session.app_session.factory['PathNamer']
+            symlink_path = os.path.join(
+                dir_path, path_namer.safe_filename(link_name)
+            )
 
             _logger.debug('symlink {} -> {}', symlink_path, link_target)
 
